@@ -477,6 +477,8 @@ pub fn builder_cfgs() -> Vec<Cfg> {
             ..d()
         },
         Cfg { name: "scheme-override", mode: s, allow_schemes: Some((&[("a", &[("href", &["https"])])], Beh::Override)), ..d() },
+        // an override list replaces the mode's schemes, compat's extra ones (`matrix:`) included
+        Cfg { name: "scheme-override-compat", mode: c, allow_schemes: Some((&[("a", &[("href", &["https"])])], Beh::Override)), ..d() },
         Cfg { name: "scheme-nomode", allow_schemes: Some((&[("a", &[("href", &["https"])])], Beh::Add)), ..d() },
         Cfg {
             name: "scheme-deny",
@@ -1338,22 +1340,25 @@ pub fn clean_attr_values(el: &str, compat: bool) -> Vec<(&'static str, Vec<&'sta
         "span" => vec![
             ("data-mx-bg-color", vec!["#00ff00"]),
             ("data-mx-color", vec!["#ff0000"]),
-            ("data-mx-spoiler", vec!["reason"]),
+            // an allowed attribute may be empty (a spoiler without a reason)
+            ("data-mx-spoiler", vec!["reason", ""]),
             ("data-mx-maths", vec!["x^2"]),
         ],
         "a" => {
-            let mut href = vec!["https://e.x/p", "http://e.x/", "ftp://e.x/f", "mailto:a@e.x", "magnet:?xt=urn:btih:0"];
+            // (a URI that is just an allowed scheme and its colon is still that scheme)
+            let mut href = vec!["https://e.x/p", "http://e.x/", "ftp://e.x/f", "mailto:a@e.x", "magnet:?xt=urn:btih:0", "mailto:", "https:"];
             if compat {
                 href.push("matrix:u/a:e.x");
+                href.push("matrix:");
             }
             vec![("target", vec!["_blank"]), ("href", href)]
         }
         "img" => vec![
             ("width", vec!["10"]),
             ("height", vec!["20"]),
-            ("alt", vec!["alt text"]),
+            ("alt", vec!["alt text", ""]),
             ("title", vec!["a title"]),
-            ("src", vec!["mxc://e.x/abc"]),
+            ("src", vec!["mxc://e.x/abc", "mxc:"]),
         ],
         "ol" => vec![("start", vec!["3"])],
         "code" => vec![("class", vec!["language-rust", "language-a language-b"])],
